@@ -164,3 +164,27 @@ Proof. unfold caps; cbn. rewrite forallb_forall. reflexivity. Qed.
 Lemma caps_conj_tag cs :
   snd (caps cs) = true <-> (forall c, In c cs -> snd c = true).
 Proof. unfold caps; cbn. rewrite forallb_forall. reflexivity. Qed.
+
+(* nesting: reporting on a tree of multi reporters reaches every leaf exactly once, left to
+   right - the same calls as one flat multi reporter over all the leaves *)
+Lemma tag_from_app i (a b : list ev) : tag_from i (a ++ b) = tag_from i a ++ tag_from (i + length a) b.
+Proof.
+  revert i; induction a as [|x a IH]; intro i; simpl.
+  - rewrite Nat.add_0_r. reflexivity.
+  - rewrite IH. do 3 f_equal. rewrite <- plus_n_Sm. reflexivity.
+Qed.
+
+Fixpoint rtree_ind' (P : rtree -> Prop) (HL : P Leaf)
+  (HN : forall ks, Forall P ks -> P (Node ks)) (t : rtree) : P t :=
+  match t with
+  | Leaf => HL
+  | Node ks => HN ks ((fix go (ks : list rtree) : Forall P ks :=
+                         match ks with [] => Forall_nil P | k :: r => Forall_cons k (rtree_ind' P HL HN k) (go r) end) ks)
+  end.
+
+Lemma nested_is_flat t : forall i c, deliver t i c = tag_from i (repeat c (leaves t)).
+Proof.
+  induction t as [|ks IH] using rtree_ind'; intros i c; [reflexivity|].
+  simpl. revert i. induction IH as [|k r Hk Hr IHr]; intro i; [reflexivity|].
+  rewrite Hk, IHr, repeat_app, tag_from_app, repeat_length. reflexivity.
+Qed.
